@@ -184,13 +184,17 @@ def install():
 def run_recorded(fn, *args, mode="monitor", decisions=None, **kwargs):
     """Run `fn(*args)` with a fresh event list; return (out, events in runtime order)."""
     ENV.reset(mode, decisions)
-    out = fn(*args, **kwargs)
-    out = jax.block_until_ready(out)
+    try:
+        out = fn(*args, **kwargs)
+        out = jax.block_until_ready(out)
+    except BaseException:
+        ENV.reset("monitor")
+        raise
     # io_callback(ordered=False) effects are flushed by block_until_ready on outputs that
     # depend on them; make sure stragglers (draws whose value reaches no output) are in.
     jax.effects_barrier()
     evs = ENV.events
-    ENV.events = []
+    ENV.reset("monitor")  # never leave a stale decision table behind
     return out, evs
 
 
